@@ -69,6 +69,12 @@ def r1_typestate(ctx):
             if b.path != acc.path:
                 continue
             R.check(ok_t is not None and acc.dominates(ok_t, bi), "C04.R1", "accept:sink-after-response-enqueued", "the sink exists only after the accept response was handed to the connection", "the SubscriptionSink is built before (or regardless of) the accept response being enqueued: a notification can overtake the response", "%s:%d" % (acc.file, st["sp"][0]))
+        # the internal "subscribe call answered" signal fires only once the response is on the connection queue: the
+        # close task treats that signal as "accepted" and may emit the closing notification
+        ones = acc.calls_to(r"oneshot::Sender::<.*>::send$")
+        R.check(bool(ones), "C04.R1", "accept:internal-answer-exists", "accept answers the subscribe call internally", "accept no longer answers the subscribe call through its oneshot", "%s:%d" % (acc.file, acc.lo))
+        for o in ones:
+            R.check(ok_t is not None and acc.dominates(ok_t, o.bb), "C04.R1", "accept:internal-answer-after-enqueue", "the subscribe call is reported answered only after the response was handed to the connection", "accept reports the subscribe call as answered before the response is handed to the connection: if the connection queue is full and the handler abandons accept(), the close task sends a closing notification for a subscription whose accept response was never sent", where(o))
         # what is sent is the response
         lv = tr.origins(acc, s.args[1])
         R.check(any(l.kind == "call" and re.search(r"MethodResponse::", l.detail["callee"] or "") for l in lv), "C04.R1", "accept:sends-the-response", "what accept enqueues is the subscribe response", "accept enqueues %s" % [flow.leaf_str(l) for l in lv], where(s))
@@ -259,6 +265,22 @@ def r6_single_writer(ctx):
     R.check(sorted(set(consumers)) == ["jsonrpsee_server::transport::ws::send_task::{closure#0}"], "C04.R6", "single-writer", "the connection queue has one consumer (ws::send_task)", "the connection queue is consumed in %s" % sorted(set(consumers)), "%s:%d" % (st.file, st.lo))
     spawns = [c for c in F.all_calls(r"ws::send_task$") if c.body.crate == SERVER]
     R.check(len(spawns) == 1, "C04.R6", "send_task:spawned-once", "send_task is started once per connection", "send_task is started at %d sites" % len(spawns), None)
+    # the connection's end closes the queue: the connection task joins the writer (which owns the receiver) before it
+    # finishes, so once the connection ended / the server reported stopped every sink reports closed
+    g = F.one(r"^jsonrpsee_server::transport::ws::graceful_shutdown::\{closure#0\}$")
+    R.fn(g)
+    jh = [c for c in g.calls_to(r"IntoFuture::into_future$") if "JoinHandle" in (c.self_ty or "") + " ".join(c.ga)]
+    R.check(bool(jh), "C04.R6", "writer-joined-at-connection-end", "the connection task waits for the writer task (owner of the queue's receiver) to end", "the connection task no longer joins the writer task: the connection can end (and the server report stopped) while the queue's receiver is still open, so sinks do not report closed and sends are still accepted", "%s:%d" % (g.file, g.lo))
+    bt = F.one(r"^jsonrpsee_server::transport::ws::background_task::\{closure#0\}$")
+    gs = bt.calls_to(r"ws::graceful_shutdown$")
+    tr = ctx.tracer(follow_callers=False, follow_fields=False)
+    okh = False
+    for c in gs:
+        for a in c.args:
+            for l in tr.origins(bt, a):
+                if l.kind == "call" and re.search(r"tokio::(task::)?spawn$", l.detail["callee"] or ""):
+                    okh = True
+    R.check(okh, "C04.R6", "writer-handle-passed", "the handle joined is the one of the spawned send_task", "graceful_shutdown is not given the JoinHandle of the spawned writer task", where(gs[0]) if gs else None)
 
 
 RULES = [r1_typestate, r2_closed_check_first, r3_identity, r4_close_gating, r5_unsubscribe_key, r6_single_writer]
